@@ -200,27 +200,7 @@ def long_lists():
 
 
 def wide_ids():
-    """Multi-digit ids: 12 projects / 11 students."""
-    out = []
-    lists = [w for sub in ((1,), (10,), (12,), (1, 10), (10, 12), (2, 11), (1, 10, 12))
-             for w in I.weak_orders(sub)]
-    lect = tuple(1 if p <= 6 else 2 for p in range(1, 13))
-    for a in lists:
-        for b in lists[::3]:
-            sprefs = (a, b)
-            lprefs = tuple(I.weak_orders(I.acceptable_students(sprefs, lect, k))[-1]
-                           for k in (1, 2))
-            out.append(I.make3(2, 12, 2, sprefs, lect, lprefs,
-                               tuple((0, 1) for _ in range(12)), ((0, 1, 2), (0, 1, 2))))
-            hl = tuple(I.weak_orders(I.acceptable_students(sprefs, tuple(range(1, 13)), k))[-1]
-                       for k in range(1, 13))
-            out.append(I.make2(2, 12, sprefs, hl, tuple((0, 1) for _ in range(12))))
-    # 11 students with single-entry lists over 2 projects
-    sprefs = tuple(((1 + (i % 2),),) for i in range(11))
-    lp = tuple(I.weak_orders(I.acceptable_students(sprefs, (1, 2), k))[7] for k in (1, 2))
-    out.append(I.make3(11, 2, 2, sprefs, (1, 2), lp, ((0, 6), (0, 6)), ((0, 3, 6), (0, 3, 6))))
-    out.append(I.make2(11, 2, sprefs, lp, ((0, 6), (0, 6))))
-    return out
+    return I.family_W()
 
 
 def main(tier):
